@@ -416,10 +416,6 @@ void vfps::ProgramOptions::save(std::string fname)
         ){
             continue;
         } else
-        if (it->first == "alpha0" && std::fpclassify(f_s) == FP_ZERO) {
-            ofs << "alpha0=0" << std::endl;
-            continue;
-        } else
         if (!it->second.value().empty()) {
             if (it->second.value().type() == typeid(float)) {
                 ofs << it->first << '='
